@@ -160,7 +160,9 @@ func (k *ServerKit) Shutdown(timeout time.Duration) bool {
 // Resp is a response as an independent parser (net/http) sees it.
 type Resp struct {
 	Status  int
-	Proto   string
+	// StatusLine is "<code> <reason phrase>" as net/http read it.
+	StatusLine string
+	Proto      string
 	Header  http.Header
 	Body    []byte
 	BodyErr error
@@ -383,7 +385,7 @@ func (s *SeqClient) ReadResp(method string, obs time.Duration) (r *Resp, interim
 		if err != nil {
 			return nil, interim, err
 		}
-		r := &Resp{Status: resp.StatusCode, Proto: resp.Proto, Header: resp.Header, Inv: -1}
+		r := &Resp{Status: resp.StatusCode, StatusLine: resp.Status, Proto: resp.Proto, Header: resp.Header, Inv: -1}
 		// net/http removes "Connection: close" from the header map and reports it as resp.Close
 		r.Close = resp.Close || hasToken(resp.Header.Values("Connection"), "close")
 		if v := resp.Header.Get("X-Inv"); v != "" {
